@@ -9,6 +9,8 @@ HERE = os.path.dirname(os.path.dirname(os.path.abspath(__file__)))
 def one(d):
     key = os.path.basename(d)
     pid = key.split("_")[0]
+    if json.load(open(os.path.join(d, "meta.json"))).get("superseded"):
+        return key, "SUPERSEDED", []
     scratch = tempfile.mkdtemp(prefix="mhlseed.", dir="/dev/shm")
     copy = os.path.join(scratch, "repo")
     try:
@@ -49,7 +51,7 @@ def main():
         res = list(ex.map(one, dirs))
     bad = 0
     for key, r, viol in res:
-        if r != "KILLED":
+        if r not in ("KILLED", "SUPERSEDED"):
             bad += 1
         print("%-8s %s %s" % (key, r, "; ".join(v.split("|")[0].replace("violation: ", "") for v in viol)[:100]))
     print("%d changes, %d not killed" % (len(res), bad))
